@@ -52,6 +52,7 @@ def run(repo, chk):
     rule_g(repo, chk)
     rule_thread_marker(repo, chk)
     rule_adoption(repo, chk)
+    rule_context_handover(repo, chk)
 
 
 def rule_thread_marker(repo, chk):
@@ -147,6 +148,17 @@ def rule_adoption(repo, chk):
                 ok, path = False, q
         chk.ob('i', f.ref, 'linking happens only when the currently handled event is itself tracked', ok, loc(f, lp.ast), path=pat.path_lines(path) if path else None,
                discr='tracked-guard')
+
+
+def rule_context_handover(repo, chk):
+    """A component that is its own root may register in another tree from one of its own handlers (drainFrom hands the rest of its batch over for that case).  What that
+    handler fires afterwards goes to the new root, whose 'currently handled event' knows nothing of the dispatch that is still going on in the old one."""
+    f = repo.func(MANAGER, 'Manager.registerChild')
+    g = f.cfg()
+    comp = f.params[1]
+    hand = [n for n in g.nodes if n.kind == 'stmt' and any(a == '_currently_handling' and f'{comp}._currently_handling' in src(v) for _r, a, v in pat.attr_store(n.ast))]
+    chk.ob('i', f.ref, 'a component that registers while it is dispatching hands the event it is handling over to the new root (what its handler fires next is still an effect '
+                       'of that event)', bool(hand), loc(f, f.node), discr='dispatch-context-handed-over')
 
 
 def _accounting(n):
